@@ -41,6 +41,14 @@ fn check_key(b: &Backend, m: &mut M, rep: &mut Report, kind: &str, bytes: &[u8],
     };
     let text = (b.key_text)(kind, bytes).unwrap_or_default();
     let want = direct_id(b, kind, &text);
+    // ... and of the key's PASERK text written down here, not taken from the implementation: every key handed to
+    // this function is given in its canonical serialisation, so its text is header || base64url(bytes)
+    let khdr = match kind { "local" => ".local.", "public" => ".public.", _ => ".secret." };
+    let own_text = format!("{}{}{}", kver(b), khdr, lab::b64(bytes));
+    let want_own = direct_id(b, kind, &own_text);
+    if !src.contains("pem") && id != want_own {
+        rep.violation(&format!("c13.{}.{kind}.not-spec", b.name), format!("{} {kind} id is {id}, the PASERK definition applied to the key's canonical text {} gives {want_own}", b.name, &own_text[..own_text.len().min(60)]), case.clone());
+    }
     if id != want {
         rep.violation(&format!("c13.{}.{kind}.not-spec", b.name), format!("{} {kind} id is {id}, the PASERK definition gives {want}", b.name), case.clone());
     }
@@ -72,7 +80,7 @@ fn check_key(b: &Backend, m: &mut M, rep: &mut Report, kind: &str, bytes: &[u8],
 
 pub fn run(ctx: &Ctx) {
     let mut rep = Report::new("C13", &ctx.tier, ctx.seed);
-    rep.rule = "ids (lid / sid / pid) of generated and parsed keys on all six backends: equal to the PASERK definition computed directly (SHA-384[..33] / BLAKE2b-264 over kN || id header || key text) and to the extracted model; stable across clone and serialise/parse; v1 keys given as PEM and as DER; the two backends of a version agree; lid / sid / pid of related keys differ; KeyId ==, cmp, partial_cmp and Hash agree with the 33 bytes on random, equal and adjacent ids; distinct = (backend, kind, key source) and comparison classes".into();
+    rep.rule = "ids (lid / sid / pid) of generated and parsed keys on all six backends: equal to the PASERK definition computed directly (SHA-384[..33] / BLAKE2b-264 over kN || id header || key text) and to the extracted model; stable across clone and serialise/parse; v1 keys given as PEM and as DER; the two backends of a version agree; lid / sid / pid of related keys differ; id strings with 0..70 data bytes parse iff the data has exactly 33 bytes (and round-trip); the pid of secret.public_key() equals the pid of that public key derived independently; KeyId ==, cmp, partial_cmp and Hash agree with the 33 bytes on random, equal and adjacent ids; distinct = (backend, kind, key source) and comparison classes".into();
     let bs = lab::backends();
     let mut m = M::new(&ctx.model);
     let mut g = SplitMix64::new(ctx.seed ^ 0xC13);
@@ -117,10 +125,42 @@ pub fn run(ctx: &Ctx) {
                 }
             }
         }
+        // the public key a secret key derives has the id of that public key given directly (v1: the corpus
+        // includes a key with public exponent 3)
+        for kp in &kps {
+            rep.evaluations += 1;
+            let derived = (b.public_of_secret)(&kp.sk).and_then(|pk| (b.key_id)("public", &pk));
+            let direct = (b.key_id)("public", &kp.pk);
+            if derived != direct || direct.is_err() {
+                rep.violation(&format!("c13.{}.public.derived-id", b.name), format!("{}: the pid of secret.public_key() is {:?}, the pid of the same public key parsed from its bytes is {:?}", b.name, derived, direct), json!({"backend": b.name, "kind": "secret", "bytes": hex::encode(&kp.sk), "what": "derived public key"}));
+            }
+        }
+        // id strings: the data part must decode to exactly 33 bytes
+        for kind in ["local", "public", "secret"] {
+            let hdr = match kind { "local" => ".lid.", "public" => ".pid.", _ => ".sid." };
+            for len in (0usize..=70).chain([96, 99, 132]) {
+                let bytes = g.bytes(len);
+                let s = format!("{}{}{}", kver(b), hdr, lab::b64(&bytes));
+                rep.evaluations += 1;
+                rep.model_evaluations += 1;
+                let mr = res_bytes(&m.eval(&sexp::op("parse_keyid", vec![sexp::x(kver(b).as_bytes()), sexp::x(hdr.as_bytes()), sexp::x(s.as_bytes())])));
+                let got = (b.keyid_cmp)(kind, &s, &s);
+                let case = json!({"backend": b.name, "kind": kind, "bytes": hex::encode(&bytes), "what": format!("id string with {len} data bytes")});
+                match (&got, len == 33) {
+                    (Ok((true, 0, true, a, _)), true) if *a == bytes => rep.nontrivial(format!("{}|idtext|{kind}|33", b.name)),
+                    (Err(_), false) => rep.nontrivial(format!("{}|idtext|{kind}|{}", b.name, if len < 33 { "short" } else { "long" })),
+                    (Ok(x), false) => rep.violation(&format!("c13.{}.{kind}.id-length", b.name), format!("{} parses an id string whose data decodes to {len} bytes (as {})", b.name, hex::encode(&x.3)), case.clone()),
+                    (other, _) => rep.violation(&format!("c13.{}.{kind}.id-text", b.name), format!("{} does not parse / round-trip a 33-byte id: {:?}", b.name, other.as_ref().map(|x| (x.0, x.1, x.2, x.3.len()))), case.clone()),
+                }
+                if mr.is_ok() != got.is_ok() || (mr.is_ok() && mr.as_ref().ok() != got.as_ref().ok().map(|x| &x.3)) {
+                    rep.disagreement(&format!("c13.{}.{kind}.idtext-model", b.name), format!("id string with {len} data bytes: implementation {:?}, model {:?}", got.as_ref().map(|x| x.3.len()), mr.as_ref().map(|x| x.len())), case);
+                }
+            }
+        }
         // v1: PEM and DER inputs of one key give one id
         if b.ver == "v1" {
             use rsa::pkcs1::{DecodeRsaPrivateKey, EncodeRsaPrivateKey};
-            for der in tok::corpus_rsa_keys(2048).iter().take(2) {
+            for der in tok::corpus_rsa_keys(2048).iter() {
                 let k = rsa::RsaPrivateKey::from_pkcs1_der(der).unwrap();
                 let pem = k.to_pkcs1_pem(rsa::pkcs8::LineEnding::LF).unwrap().as_bytes().to_vec();
                 rep.evaluations += 1;
